@@ -70,6 +70,7 @@ Plan generate(const std::string& prop, int tier, uint64_t batchSeed, uint64_t id
         cfg.set("nthreads", n).set("schedseed", static_cast<int64_t>(r.next() >> 1));
         cfg.set("mean", r.pick<int64_t>({1, 2, 5, 20, 100, 1000, 10000}));
         cfg.set("mode", r.chance(1, 4) ? 1 : 0).set("points", static_cast<int64_t>(1 + r.below(6)));
+        cfg.set("horizon", r.pick<int64_t>({2000, 20000, 100000, 400000}));
         p.items.push_back(cfg);
         const bool sameWorkload = r.chance(1, 2);  // identical workloads on all threads: every access (also on rare paths) has a twin
         const int shared = mixn[r.below(12)];
